@@ -11,9 +11,12 @@ func (op *FsTxn) postCommit() {
 }
 
 func (op *FsTxn) commitWait(wait bool) bool {
+	verifEvent("commit-start", op, verifBool(wait))
 	op.preCommit()
 	ok := op.Atxn.Op.CommitWait(wait)
+	verifEvent("commit-done", op, verifBool(ok))
 	op.postCommit()
+	verifEvent("commit-end", op, verifBool(ok))
 	return ok
 }
 
@@ -35,16 +38,21 @@ func (op *FsTxn) CommitUnstable() bool {
 // Flush log. We don't have to flush data from other file handles, but
 // that is only an option if we do log-by-pass writes.
 func (op *FsTxn) CommitFh() bool {
+	verifEvent("flush-start", op, 0)
 	op.preCommit()
 	ok := op.Fs.Txn.Flush()
+	verifEvent("flush-done", op, verifBool(ok))
 	op.postCommit()
+	verifEvent("commit-end", op, verifBool(ok))
 	return ok
 }
 
 // An aborted transaction may free an inode, which results in dirty
 // buffers that need to be written to log. So, call commit.
 func (op *FsTxn) Abort() bool {
+	verifEvent("abort", op, 0)
 	op.releaseInodes()
 	op.Atxn.PostAbort()
+	verifEvent("abort-end", op, 0)
 	return true
 }
